@@ -188,6 +188,19 @@ impl Parts {
                 es.push((k, t, vd[q + 4..q + 4 + vl].to_vec()));
                 p = q + 4 + vl;
             }
+            // entries a reader does not know (other writers add their own), of every value type
+            for n in 0..rng.below(3) {
+                let (ty, val): (u8, Vec<u8>) = match rng.below(7) {
+                    0 => (0x08, vec![rng.below(2) as u8]),
+                    1 => (0x0C, (rng.next() as i32).to_le_bytes().to_vec()),
+                    2 => (0x0D, (rng.next() as i64).to_le_bytes().to_vec()),
+                    3 => (0x18, format!("text{}", rng.below(100)).into_bytes()),
+                    4 => { let k = rng.below(20) as usize; (0x42, rng.bytes(k)) }
+                    5 => (0x04, (rng.next() as u32).to_le_bytes().to_vec()),
+                    _ => (0x05, rng.next().to_le_bytes().to_vec()),
+                };
+                es.push((format!("X{}", n).into_bytes(), ty, val));
+            }
             for i in (1..es.len()).rev() {
                 let j = rng.below(i as u64 + 1) as usize;
                 es.swap(i, j);
